@@ -43,6 +43,16 @@ def call_method(ex, o, name, args, kwargs, line):
         if name == 'update':
             o.update(args[0])
             return None
+        if name in ('discard', 'remove'):
+            k = ex.hashable(args[0])
+            if isinstance(k, T) and k.is_const():
+                k = k.value()
+            if isinstance(k, T):
+                raise Unsupported('set.%s of a symbolic element (line %s)' % (name, line))
+            if name == 'remove' and k not in o:
+                ex.raise_exc('KeyError', k, line)
+            o.discard(k)
+            return None
         if name in ('union', 'intersection', 'difference', 'issubset'):
             return getattr(o, name)(set(args[0]))
     from . import strings
